@@ -407,7 +407,13 @@ func runCase(run *vlib.Run, agg *vlib.HitAgg, i int) {
 		s.End()
 	}()
 
+	// a witness renders the whole log: only the first violations of a case get one
+	witnesses := 0
 	witness := func(extra map[string]interface{}) map[string]interface{} {
+		witnesses++
+		if witnesses > 12 {
+			return map[string]interface{}{"what": extra["what"], "note": "further violation of the same case; see the earlier replay files of this case for the log"}
+		}
 		ev := s.Log.Snapshot()
 		w := map[string]interface{}{"cfg": h.Cfg, "steps": h.Steps, "messages": s.Sock.Meta(), "log": wsclient.Render(ev, true, 400)}
 		for k, v := range extra {
